@@ -425,6 +425,46 @@ func checkC07(p *core.Program, r *core.Report) {
 		if nem < 2 {
 			r.Fail(R3, name+" emits rewritten children", p.Pos(rw.Pos()), "expected an object-member and an array-element emission")
 		}
+		// every iteration of a member/element loop emits: no path from the loop test back to it skips the emission
+		eachRW(func(in ssa.Instruction) {
+			kind := ""
+			switch x := in.(type) {
+			case *ssa.MapUpdate:
+				if isRec(x.Value) {
+					kind = "object member"
+				}
+			case *ssa.Store:
+				if ia, ok := x.Addr.(*ssa.IndexAddr); ok && isRec(x.Val) {
+					if _, ok := ia.X.Type().Underlying().(*types.Slice); ok {
+						kind = "array element"
+					}
+				}
+			}
+			if c, ok := in.(*ssa.Call); ok && isBuiltin(in, "append") && len(c.Call.Args) == 2 {
+				if sl, ok := c.Call.Args[1].(*ssa.Slice); ok {
+					if al, ok := sl.X.(*ssa.Alloc); ok {
+						for _, ref := range *al.Referrers() {
+							if ia, ok := ref.(*ssa.IndexAddr); ok {
+								for _, r2 := range *ia.Referrers() {
+									if st, ok := r2.(*ssa.Store); ok && isRec(st.Val) {
+										kind = "array element"
+									}
+								}
+							}
+						}
+					}
+				}
+			}
+			if kind == "" || !core.InLoop(in.Block()) {
+				return
+			}
+			key := name + " every " + kind + " is emitted"
+			if bad := skipsIteration(in); bad != nil {
+				r.Fail(R3, key, p.Pos(bad.Pos()), "an iteration of the loop over the children can go on to the next child without emitting this one (a value-dependent `continue`, e.g. for null): the member disappears from the wire form")
+			} else {
+				r.OK(R3, key, p.Pos(in.Pos()), "no path from the loop test back to it avoids the emission")
+			}
+		})
 		// emitted containers are never nil (an empty array/object must not become null)
 		eachRW(func(in ssa.Instruction) {
 			ret, ok := in.(*ssa.Return)
@@ -916,4 +956,29 @@ func stepBefore(b *ssa.BasicBlock, isStep func(ssa.Instruction) bool) bool {
 		}
 	}
 	return false
+}
+
+// skipsIteration: emit lies in a loop; returns the loop header's first instruction when some path from the
+// loop test leads back to the header without passing emit (nil when every iteration emits).
+func skipsIteration(emit ssa.Instruction) ssa.Instruction {
+	b := emit.Block()
+	reach := core.ReachableFrom(b, nil)
+	var hdr *ssa.BasicBlock
+	for d := b; d != nil && hdr == nil; d = d.Idom() {
+		for _, pr := range d.Preds {
+			if d.Dominates(pr) && reach[pr] {
+				hdr = d
+				break
+			}
+		}
+	}
+	if hdr == nil || len(hdr.Instrs) == 0 {
+		return nil
+	}
+	first := hdr.Instrs[0]
+	last := hdr.Instrs[len(hdr.Instrs)-1]
+	if first == last {
+		return nil
+	}
+	return core.PathSearch(b.Parent(), last, func(in ssa.Instruction) bool { return in == first }, func(in ssa.Instruction) bool { return in == emit }, nil)
 }
